@@ -167,7 +167,15 @@ def uid_of(e):
 
 
 PREDECESSORS = [["--event_limit", '{"count": 3}'], ["--event_limit", '{"skip": 2, "ts_end": 1000000100.0}'],
-                ["--event_filter", "name:hostop"], ["-F", "C"], ["--drop_globals"], ["-O", "drop"], ["--keep_prep"]]
+                ["--event_filter", "name:hostop"], ["-F", "C"], ["--drop_globals"], ["-O", "drop"], ["--keep_prep"],
+                ["$ABORT"], ["$ABORT"]]
+
+
+def aborting_input():
+    """a well-formed trace on which the default -O tid run ABORTS during the drain (seven staircase slices on one
+    lane exceed the five spare lanes): what such a run leaves behind must not reach the next run"""
+    return {"abort.json": [{"ph": "X", "name": f"stair_{k}", "pid": 0, "tid": 3, "ts": 50.0 + k, "dur": 12.0,
+                            "args": {"uid": f"abort{k}"}} for k in range(7)]}
 
 
 def e2e_job(job):
@@ -178,7 +186,10 @@ def e2e_job(job):
     if pre is not None:
         # an earlier run of the documented API in the SAME process, with other options: whatever it leaves behind
         # must not remove (or duplicate) a slice of the run under test
-        stage.e2e(["--freq", "512"] + expand_opts(pre), files)
+        if pre == ["$ABORT"]:
+            stage.e2e(["--freq", "512"], aborting_input())
+        else:
+            stage.e2e(["--freq", "512"] + expand_opts(pre), files)
     argv = ["--freq", "512"] + expand_opts(opts) + (["-I"] if with_I else [])
     r = stage.e2e(argv, files, keep_dir=with_I)
     res = {"rc": r["rc"], "error": r["error"], "exported": None, "stages": None}
